@@ -5,6 +5,7 @@ import (
 	"github.com/go-kid/ioc/container"
 	"github.com/go-kid/ioc/syslog"
 	"github.com/go-kid/ioc/util/sync2"
+	"sort"
 )
 
 type defaultDefinitionRegistry struct {
@@ -29,6 +30,10 @@ func (r *defaultDefinitionRegistry) GetMetas(opts ...container.Option) []*compon
 			metas = append(metas, m)
 		}
 		return true
+	})
+	//the map enumerates in a random order: candidates are handed out (and so created) in the order of their names, like Refresh creates components
+	sort.Slice(metas, func(i, j int) bool {
+		return metas[i].Name() < metas[j].Name()
 	})
 	return metas
 }
